@@ -443,6 +443,12 @@ def install(eng):
                 st.assume(nn >= 0)
                 yield st, new_map_value(eng, st, IMap, ident, content, nn)
                 return
+            if items is None and isinstance(a0, SymIter) and getattr(a0, "pair_of_target", False) and getattr(getattr(a0, "src", None), "map_parts", None) is not None:
+                # Map((x, x) for x in <keys of a Map>): same domain and size, every member maps to itself
+                _, d_src, n_src = a0.src.map_parts
+                kk = z3.Const(V.fresh_name("k"), V.Val)
+                yield st, new_map_value(eng, st, IMap, z3.Lambda([kk], kk), d_src, n_src)
+                return
             if items is None and isinstance(a0, SymIter):
                 # Map(iterable of (key, value) pairs) with keys known to be pairwise distinct
                 if not getattr(a0, "distinct_keys", False):
@@ -544,7 +550,8 @@ def install(eng):
 
     def map_len(eng, st, args, kw):
         m, d, n = map_parts(args[0])
-        st.assume(n >= 0)
+        # trusted: the size is the cardinality of the domain - here only "size 0 iff empty domain" is needed
+        st.assume(n >= 0, (n == 0) == (d == z3.K(V.Val, z3.BoolVal(False))))
         yield st, SV(V.mk_int(n))
 
     eng.method_models[(IMap, "__len__")] = Model("Map.__len__", map_len)
@@ -582,6 +589,7 @@ def install(eng):
         it = SymIter(None, length=ks.n, item=item, label="keys")
         it.distinct_keys = True
         it.keys_seq = ks
+        it.map_parts = map_parts(args[0])
         yield st, it
 
     def map_values(eng, st, args, kw):
@@ -714,6 +722,12 @@ def install(eng):
     def describe_empty_plist(e, s, obj, term):
         if obj is EMPTY_PLIST:
             s.assume(V.seq_of(V.Val.a(term)) == z3.Empty(V.ValSeq))
+        elif type(obj) in (PVec, PList, PDeque) and len(obj) <= 8:
+            # a concrete library sequence (the wrapped value of a module-level constant): its items
+            s.assume(V.seq_of(V.Val.a(term)) == seq_content(e, list(obj), s))
+        elif type(obj) is IMap and len(obj) == 0:
+            a = V.Val.a(term)
+            s.assume(V.dom_of(a) == z3.K(V.Val, z3.BoolVal(False)), map_size(a) == 0)
 
     eng.const_describers.append(describe_empty_plist)
 
